@@ -102,6 +102,8 @@ class Stats:
         self.skipped_budget = 0
         self.nt = set()
         self.nt_enum = 0
+        self.nt_points = 0
+        self.seen_point_cases = set()
         self.classes = collections.Counter()
         self.excluded = 0
         self.samples = []
@@ -154,6 +156,15 @@ class Stats:
         for c in info.get("classes", ()):
             self.classes[c] += 1
         self.excluded += int(info.get("excluded", 0))
+        if info.get("nt_points"):
+            # a case that enumerates several non-trivial sub-cases (e.g. fault points); they are
+            # distinct within the case by construction, so count them once per distinct case
+            h = case_hash(case)
+            if h not in self.seen_point_cases:
+                self.seen_point_cases.add(h)
+                self.nt_points += int(info["nt_points"])
+                if len(self.nt_samples) < 3:
+                    self.nt_samples.append(case)
         if info.get("nt"):
             if phase == "enum":
                 # enumerated cases are pairwise distinct by construction
@@ -183,6 +194,8 @@ class Stats:
             skipped_budget=self.skipped_budget,
             nt=self.nt,
             nt_enum=self.nt_enum,
+            nt_points=self.nt_points,
+            point_cases=self.seen_point_cases,
             classes=self.classes,
             excluded=self.excluded,
             samples=self.nt_samples + self.samples,
@@ -386,6 +399,12 @@ def main(modname, tier, seed):
         merged["skipped_budget"] += r["skipped_budget"]
         merged["nt"] |= r["nt"]
         merged["nt_enum"] += r.get("nt_enum", 0)
+        new_cases = r.get("point_cases", set()) - merged.setdefault("point_cases", set())
+        if r.get("nt_points"):
+            # shards draw different cases; scale down if a case was seen by two shards
+            frac = len(new_cases) / max(1, len(r.get("point_cases", ())))
+            merged["nt_points"] = merged.get("nt_points", 0) + int(r["nt_points"] * frac)
+        merged["point_cases"] |= r.get("point_cases", set())
         merged["classes"].update(r["classes"])
         merged["excluded"] += r["excluded"]
         if len(merged["samples"]) < 6:
@@ -481,7 +500,7 @@ def main(modname, tier, seed):
             enum_scope = res[1]
     coverage = dict(
         evaluations=merged["evaluations"],
-        distinct_nontrivial=len(merged["nt"]) + merged["nt_enum"],
+        distinct_nontrivial=len(merged["nt"]) + merged["nt_enum"] + merged.get("nt_points", 0),
         rule=mod.RULE,
         samples=merged["samples"][:6],
         classes=dict(merged["classes"].most_common()),
@@ -525,7 +544,7 @@ def main(modname, tier, seed):
         print(line)
     print(
         f"{mod.ID} {tier} seed={seed}: evaluations={merged['evaluations']} "
-        f"distinct_nontrivial={len(merged['nt']) + merged['nt_enum']} violations={violations} "
+        f"distinct_nontrivial={len(merged['nt']) + merged['nt_enum'] + merged.get('nt_points', 0)} violations={violations} "
         f"skipped_for_budget={merged['skipped_budget']} wall={wall:.1f}s"
     )
     if merged["harness_errors"]:
